@@ -433,7 +433,11 @@ func runC11(t *testing.T, c *c11Case, known func(string) bool) (out c11Outcome) 
 					skipped++
 					continue
 				}
-				_ = cur.secure.Close()
+				if hung := closeWithin(60*time.Second, []string{"client"}, cur.secure.Close); len(hung) > 0 {
+					fail("Close of the client's connection did not return within 60s")
+					stuck = true
+					break
+				}
 				// the server handler must notice and close its side within
 				// one keepalive period
 				select {
@@ -446,7 +450,11 @@ func runC11(t *testing.T, c *c11Case, known func(string) bool) (out c11Outcome) 
 					skipped++
 					continue
 				}
-				_ = curSrv.lc.secure.Close()
+				if hung := closeWithin(60*time.Second, []string{"server"}, curSrv.lc.secure.Close); len(hung) > 0 {
+					fail("Close of the server's connection did not return within 60s")
+					stuck = true
+					break
+				}
 				buf := make([]byte, 16)
 				rc := make(chan error, 1)
 				go func() { _, err := safeConnRead(cur.secure, buf); rc <- err }()
